@@ -46,7 +46,7 @@ def main():
     closure = hv.import_closure(modules + ["Driver.Main"])
     for name, fname in (("grid", "GridTables.lean"), ("anchors", "Anchors.lean"), ("orbits", "OrbitArms.lean"),
                         ("cores", "LinkCores.lean"), ("attrs", "AttrMoves.lean"),
-                        ("links3", "Links3.lean"), ("sews2", "Sews2.lean"), ("sews3", "Sews3.lean"), ("links3c", "Links3Loops.lean"), ("alloc", "Alloc.lean"), ("sews3c", "Sews3Loops.lean"), ("dispatch3", "Dispatch3.lean"), ("dispatch2", "Dispatch2.lean"), ("vins", "VertexInsertion.lean"), ("geom", "Geometry.lean"), ("remesh", "Remesh.lean"), ("vinsn", "VertexInsertionN.lean"), ("collapse", "Collapse.lean"), ("fan", "Fan.lean"), ("earclip", "EarClip.lean"), ("griddesc", "GridDesc.lean"), ("gcross", "GCross.lean")):
+                        ("links3", "Links3.lean"), ("sews2", "Sews2.lean"), ("sews3", "Sews3.lean"), ("links3c", "Links3Loops.lean"), ("alloc", "Alloc.lean"), ("sews3c", "Sews3Loops.lean"), ("dispatch3", "Dispatch3.lean"), ("dispatch2", "Dispatch2.lean"), ("vins", "VertexInsertion.lean"), ("geom", "Geometry.lean"), ("remesh", "Remesh.lean"), ("vinsn", "VertexInsertionN.lean"), ("collapse", "Collapse.lean"), ("fan", "Fan.lean"), ("earclip", "EarClip.lean"), ("griddesc", "GridDesc.lean"), ("gcross", "GCross.lean"), ("pre", "PreProc.lean")):
         if name not in gens_needed and any(f.endswith(os.path.join("Gen", fname)) for f in closure):
             gens_needed.append(name)
     if gens_needed:
